@@ -45,7 +45,17 @@ META = {
 
 BLOCK = 512
 VISOR7 = b"visor  "
-SCRATCH = os.environ.get("VERIF_SCRATCH", "/work/scratch_c20")
+def _scratch_root():
+    """a scratch directory outside the repository under test and outside the framework's tracked files:
+    $VERIF_SCRATCH, else /work/scratch_c20 when /work is writable, else <framework>/out/scratch_c20 (out/ is git-ignored)"""
+    if os.environ.get("VERIF_SCRATCH"):
+        return os.environ["VERIF_SCRATCH"]
+    if os.path.isdir("/work") and os.access("/work", os.W_OK):
+        return "/work/scratch_c20"
+    return os.path.join(core.OUT, "scratch_c20")
+
+
+SCRATCH = _scratch_root()
 
 
 # ----------------------------------------------------------------------------- content
@@ -800,7 +810,7 @@ class VmTarSuite(Suite):
                 "From DH Require Import Spec.VmTar Model.VmTar.\n")
 
     def generate(self, rng, tier):
-        n = 1000 if tier == "thorough" else 90
+        n = 1000 if tier == "thorough" else 80
         cases = [{"stream": "sample", "access": a} for a in ("open", "gz", "iter", "visortarfile")]
         for i in range(n):
             k = rng.weighted([("wf", 5), ("long", 2), ("malformed", 3), ("plain", 1)])
